@@ -2,6 +2,8 @@ import Snel.Model.ValidateSpec
 /-!
 Helper lemmas for C06 (`Snel.Props.C06`). Core Lean only.
 -/
+deriving instance DecidableEq for Except
+
 namespace Snel.Validate
 open Snel.Gen.C06
 
